@@ -237,7 +237,7 @@ g72x_read_s (SF_PRIVATE *psf, short *ptr, sf_count_t len)
 	while (len > 0)
 	{	readcount = (len > 0x10000000) ? 0x10000000 : (int) len ;
 
-		count = g72x_read_block (psf, pg72x, ptr, readcount) ;
+		count = g72x_read_block (psf, pg72x, ptr + total, readcount) ;
 
 		total += count ;
 		len -= count ;
@@ -479,7 +479,7 @@ g72x_write_s (SF_PRIVATE *psf, const short *ptr, sf_count_t len)
 	while (len > 0)
 	{	writecount = (len > 0x10000000) ? 0x10000000 : (int) len ;
 
-		count = g72x_write_block (psf, pg72x, ptr, writecount) ;
+		count = g72x_write_block (psf, pg72x, ptr + total, writecount) ;
 
 		total += count ;
 		len -= count ;
